@@ -21,7 +21,7 @@ RULE = ("tables with 2-6 columns, n 10-300 from classes gaussian / constant colu
 ASSUMPTIONS = ["train_test_split draws from numpy's global generator: the DataFrame/array clause seeds it "
                "identically before both calls", "entries compared with tolerance 1e-12 (min<=mean<=max) and 1e-6 (diagonal)"]
 
-TABLES = ["gauss", "constant-column", "duplicated-column", "collinear", "integers", "two-constants"]
+TABLES = ["gauss", "constant-column", "duplicated-column", "collinear", "integers", "two-constants", "few-rows"]
 MODELS = ["linear", "tree", "knn"]
 
 
@@ -38,6 +38,8 @@ def cases(tier, seed):
 def make_table(rng, kind):
     n = int(rng.randint(10, 300 if kind == "gauss" else 120))
     d = int(rng.randint(2, 7))
+    if kind == "few-rows":
+        n = int(rng.randint(2, 5))         # the smallest tables the half / half split accepts: a test half of one row
     X = rng.randn(n, d)
     X[:, 1] += X[:, 0] * rng.uniform(0.5, 2)
     if kind == "constant-column":
@@ -80,6 +82,8 @@ def _run_nlc(case, ctx):
     rng = numpy.random.RandomState(case["sub"] % (2 ** 31))
     kind = TABLES[case["sub"] % len(TABLES)]
     mname = MODELS[(case["sub"] // len(TABLES)) % len(MODELS)]
+    if kind == "few-rows" and mname == "knn":
+        mname = "tree"          # three neighbours cannot be found in a training half of one or two rows
     X = make_table(rng, kind)
     d = X.shape[1]
     draws = int(rng.randint(1, 6))
@@ -228,7 +232,8 @@ def _run_nlc(case, ctx):
             ctx.violation(K + "labels-lost", "result for a DataFrame does not keep the variable names", cfg=cfg,
                           got=getattr(M, "columns", None))
             break
-    if mname == "linear":
+    if mname == "linear" and kind != "few-rows":
+        # (on one or two training rows no model is "able to learn the identity": the clause does not apply)
         ctx.hit("nlc.diagonal")
         dg = numpy.diag(ca)
         ctx.check(bool(numpy.allclose(dg, 1, rtol=0, atol=1e-6)), K + "diagonal-not-1",
